@@ -14,5 +14,15 @@ for l in open(os.path.join(HERE, 'properties.jsonl')):
         '; '.join('%s (%s)' % (m.get('name'), m.get('where')) for m in d['anchors']['mechanism']))
     subprocess.run(['git', '-C', '/repo', 'worktree', 'remove', '--force', '/tmp/wt/' + wid], stderr=subprocess.DEVNULL)
     subprocess.check_call(['git', '-C', '/repo', 'worktree', 'add', '-q', '--detach', '/tmp/wt/' + wid, 'HEAD'])
-    open('/tmp/wt/%s.prompt.txt' % wid, 'w').write(tmpl.replace('@ID@', wid).replace('@PROP@', prop))
+    extra = ''
+    prior = sorted(d for d in os.listdir(os.path.join(HERE, 'neutral')) if d.startswith(pid))
+    if prior:
+        extra = "\n\nEarlier rounds already produced the refactorings summarised below for this property; do something DIFFERENT (other functions, or a different kind of restructuring of the same ones):\n"
+        for pr in prior:
+            notes = open(os.path.join(HERE, 'neutral', pr, 'NOTES.md')).read().splitlines()
+            extra += ''.join('   | %s\n' % ln for ln in notes[:14])
+    steer = os.environ.get('NEUTRAL_STEER')
+    if steer:
+        extra += '\n' + steer + '\n'
+    open('/tmp/wt/%s.prompt.txt' % wid, 'w').write(tmpl.replace('@ID@', wid).replace('@PROP@', prop).replace('\nTASK:', extra + '\nTASK:'))
 print('prepared neutral wave', L)
